@@ -51,16 +51,39 @@ def model_to_dict(m, limit=400):
 
 
 def discharge(vc, use_cvc5=True, timeout_ms=None):
+    from . import ground
     v = Verdict(vc)
     t0 = time.time()
-    if z3.is_true(vc.goal):
+    if isinstance(vc.goal, z3.ExprRef) and z3.is_true(vc.goal):
         v.status, v.backend, v.trivial = 'discharged', 'simplifier', True
         return v
+    pc_plain = [b for b in vc.pc if isinstance(b, z3.ExprRef)]
+    pc_q = [b for b in vc.pc if not isinstance(b, z3.ExprRef)]
+    ground_model = None
+    if pc_q or not isinstance(vc.goal, z3.ExprRef):
+        # ground stage (primary): own instantiation, quantifier-free query
+        r, gs, stats = ground.ground_check(vc.pc, vc.goal, vc.roles or ground.Roles(),
+                                           timeout_ms=timeout_ms or Z3_TIMEOUT_MS)
+        v.time = time.time() - t0
+        if r == z3.unsat:
+            v.status, v.backend = 'discharged', 'ground'
+            return v
+        if r == z3.sat:
+            try:
+                ground_model = model_to_dict(gs.model())
+            except Exception:
+                ground_model = None
+        ground_reason = 'ground-stage: %s (%s)' % (r, stats)
+        pc_full = pc_plain + [ground.to_z3(b) for b in pc_q]
+        goal_full = ground.to_z3(vc.goal)
+        qt = min(timeout_ms or Z3_TIMEOUT_MS, 10000)
+    else:
+        pc_full, goal_full, qt, ground_reason = pc_plain, vc.goal, timeout_ms or Z3_TIMEOUT_MS, ''
     s = z3.Solver()
-    s.set('timeout', timeout_ms or Z3_TIMEOUT_MS)
-    for b in vc.pc:
+    s.set('timeout', qt)
+    for b in pc_full:
         s.add(b)
-    s.add(z3.Not(vc.goal))
+    s.add(z3.Not(goal_full))
     r = s.check()
     v.time = time.time() - t0
     if r == z3.unsat:
@@ -76,12 +99,12 @@ def discharge(vc, use_cvc5=True, timeout_ms=None):
     # stage 1b: a second z3 configuration (different quantifier strategy) on unknown
     if r == z3.unknown:
         s2 = z3.Solver()
-        s2.set('timeout', timeout_ms or Z3_TIMEOUT_MS)
+        s2.set('timeout', qt)
         s2.set('smt.mbqi', False)
         s2.set('smt.random_seed', 7)
-        for b in vc.pc:
+        for b in pc_full:
             s2.add(b)
-        s2.add(z3.Not(vc.goal))
+        s2.add(z3.Not(goal_full))
         r2 = s2.check()
         if r2 == z3.unsat:
             v.status, v.backend = 'discharged', 'z3-ematching'
@@ -101,7 +124,9 @@ def discharge(vc, use_cvc5=True, timeout_ms=None):
     if r == z3.sat:
         v.status, v.backend, v.reason, v.model = 'refuted', 'z3', 'sat', model
     else:
-        v.status, v.backend, v.reason = 'unknown', 'z3', z3_reason
+        v.status, v.backend, v.reason = 'unknown', 'z3', (ground_reason + '; ' if ground_reason
+                                                          else '') + 'z3: ' + z3_reason
+        v.model = ground_model
     return v
 
 
